@@ -268,4 +268,38 @@ theorem lkstep_sim {s : LS} {t : HT} (r : Rep s t) {fuel : Nat} (hfuel : (nodes 
     rw [← hk]
     exact (erase_sim hf r hfuel' e).mono (fun _ _ h _ => ⟨h.rep, Nat.le_trans h.len (Nat.le_succ _)⟩)
 
+/-- like `Sim.bind`, also handing the link-level result to the continuation -/
+theorem Sim.bind_val {α β α' β' : Type} {rel : α → β → Prop} {rel' : α' → β' → Prop} {l : LR α} {a : R β}
+    {f : α → LR α'} {g : β → R β'} (h : Sim rel l a)
+    (hf' : ∀ x b, rel x b → l.val = .ok x → a.val = .ok b → Sim rel' (f x) (g b)) : Sim rel' (l >>= f) (a >>= g) := by
+  refine Sim.bind (rel := fun x b => rel x b ∧ l.val = .ok x) ?_ (fun x b hr hv => hf' x b hr.1 hr.2 hv)
+  obtain ⟨h1, h2⟩ := h
+  refine ⟨h1, ?_⟩
+  cases hv : a.val with
+  | ok b => rw [hv] at h2; obtain ⟨x, hx, hr⟩ := h2; exact ⟨x, hx, hr, hx⟩
+  | error e => rw [hv] at h2; exact h2
+
+/-- a sequence of keyed operations on one table at link level (cf. `Hash.krun`) -/
+def lkrun (fuel : Nat) (s : LS) : List KOp → LR LS
+  | [] => pure s
+  | op :: ops => do
+    let s' ← lkstep hf fuel s op
+    lkrun fuel s' ops
+
+def LKValidFrom (fuel : Nat) (s : LS) (t : HT) : List KOp → Prop
+  | [] => True
+  | op :: ops => LKValid s t op ∧
+      ∀ s' t', (lkstep hf fuel s op).val = .ok s' → (Hash.kstep hf t op).val = .ok t' → LKValidFrom fuel s' t' ops
+
+theorem lkrun_sim (fuel : Nat) : ∀ (ops : List KOp) (s : LS) (t : HT), Rep s t → (nodes t).length + ops.length ≤ fuel →
+    LKValidFrom hf fuel s t ops → Sim (fun s' t' => Rep s' t') (lkrun hf fuel s ops) (Hash.krun hf t ops)
+  | [], s, t, r, _, _ => Sim.pure r
+  | op :: ops, s, t, r, hfuel, hv => by
+    show Sim _ (lkstep hf fuel s op >>= fun s' => lkrun hf fuel s' ops)
+      (Hash.kstep hf t op >>= fun t' => Hash.krun hf t' ops)
+    have hf1 : (nodes t).length + 1 ≤ fuel := by simp at hfuel; omega
+    refine Sim.bind_val (lkstep_sim hf r hf1 op hv.1) ?_
+    intro s' t' ⟨r', hlen⟩ hl ha
+    exact lkrun_sim fuel ops s' t' r' (by simp at hfuel; omega) (hv.2 s' t' hl ha)
+
 end Cstl.HashL
